@@ -234,3 +234,17 @@ example : b64decode [84, 87, 69, 61] = some [77, 97] := by decide
 example : (chunk 3 [1, 2, 3, 4, 5, 6, 7]) = [[1, 2, 3], [4, 5, 6], [7]] := by decide
 
 end OapiVerif.Embed
+
+namespace OapiVerif.Pipeline
+open Filter
+
+/-- The inlined specification is generated from the document the other consumers see — after the filters and the pruning
+(`C16_pipeline_translated` says what that document is): it is one of the consumers of the stage list read from the source,
+and no stage edits the document after the first consumer. -/
+theorem C19_embedded_is_the_filtered_pruned_document (cfg : Cfg) (skipPrune : Bool) (ops : List Op) (comps : List OapiVerif.Prune.Comp) :
+    Stage.consumer "inlinedSpec" ∈ Gen.Pipeline.stages ∧
+    (seenByConsumers cfg skipPrune Gen.Pipeline.stages ⟨ops, comps⟩ false).map (fun s => (s.ops, s.comps)) =
+      some (filterDoc cfg ops, if skipPrune then comps else (OapiVerif.Prune.prune (docOf cfg ops comps)).comps) :=
+  ⟨by decide, C16_pipeline_translated cfg skipPrune ops comps⟩
+
+end OapiVerif.Pipeline
